@@ -70,10 +70,26 @@ interleaved in any way with rotations, flushes, table compactions, transactions,
   (`RunOK.nums`, `RunOK.jmax`), the next `newMem` truncates and adopts it (`DiskOK.journal_create'`), an `Open`
   replays it last and finds nothing, `markFileNum` in `recOpen` puts the next file number above it.
 
-Not proved (`fault_safe_full`): D10 and D26.  Random exploration of the machine (`Scratch/Explore.lean` in the
-work area, crash images checked after every step) finds no violation of the invariant under `Act.faultsOK`
-(3 000 runs of 200 steps with compactions and transactions) and does find violations for D10.  Damaged data
-under checksum verification: C12 (journal chunks) and C13 (table blocks).
+D10 and D26 are repaired in the tree (commits 5cf4e90, 8a67fea) and the machine follows the repaired code:
+`Transaction.Discard` after a failed `Commit` (`Dur.trDiscardJob`) leaves the transaction's tables alone while
+`session.manifestFailed` is set (`Cfg.discardKeepsTablesWhenUncertain`), and the cleanup of `newManifest` keeps the
+new manifest when `SetMeta` reported an error after it took effect (`Cfg.cleanupChecksCurrent`; the commit still
+fails, `manifestFailed` is set, the retry writes another manifest).  The code as found is behind the two flags, with
+its losing runs as the records of the findings (`d10_discard_after_failed_commit_loses_table`,
+`d26_setmeta_effect_then_cleanup_loses_current`); `code_discard_guard_and_cleanup_check` ties the flags to the
+source.  The first repair of D26 left one combination of *two* storage faults that lost the entry point: `SetMeta`
+fails after it took effect and the `GetMeta` of the cleanup fails too (`setmeta_and_getmeta_fail_lose_current`, on
+`cleanupKeepsWhenGetMetaFails = false`); commit 98bd5c2 keeps the file in that case as well.
+
+`fault_safe_writer` (and `fault_safe_writer_created`, from an empty storage) still carry `noD10`/`noD26`: the
+invariant of `Proofs/DurableInv.lean` says that the session mirrors the last view of the manifest, which is false
+between a manifest append/`Sync`/`SetMeta` that failed *with* effect and the next successful `newManifest`.
+`fault_safe_full` is the statement without them (every fault class).  It is not
+proved; random exploration of the machine with every fault class enabled (`Scratch/Explore.lean` in the work
+area: 3 000 runs of 200 steps, crash images checked after every step, transactions with `Discard` after failed
+commits) finds no violation of it for the repaired configuration, and finds violations for
+`discardKeepsTablesWhenUncertain = false`, `cleanupChecksCurrent = false` and `cleanupKeepsWhenGetMetaFails = false`.  Damaged data under checksum
+verification: C12 (journal chunks) and C13 (table blocks).
 -/
 namespace GoLevel.C08
 open GoLevel GoLevel.Dur
@@ -254,17 +270,127 @@ example : (List.range (staleRecordAndLeftover.length + 1)).all (fun n =>
 example : readsAB {} (staleRecordAndLeftover.take 45) = some (none, some [2]) := by decide
 example : C04.readsK {} staleRecordAndLeftover = some (some [118]) := by decide
 
-/-- The statement for the whole machine with faults everywhere (not proved, see the header). -/
+/-! ## the records of D10 and D26, and the double fault that is left -/
+
+/-- a transaction whose commit fails at the manifest `Sync` — after the record became durable —, three attempts later
+    (here: at once) the client discards it -/
+def trCommitSyncFailsThenDiscard : List Act :=
+  [.trBegin, .trPut C04.putKV, .trCommit, .job false .ok, .job false .ok, .job false .ok,   -- the table
+   .job false .ok, .job false .failEffect,                                                   -- append, Sync fails
+   .trDiscard]
+
+/-- **D10 (the code as found, `discardKeepsTablesWhenUncertain = false`).**  `Transaction.discard` removes the
+    transaction's table although the record that names it is in the manifest: the next `Open` fails with missing
+    files — after a clean exit and after a crash. -/
+theorem d10_discard_after_failed_commit_loses_table :
+    ((run { discardKeepsTablesWhenUncertain := false } init trCommitSyncFailsThenDiscard).map fun sd =>
+      (C04.openError { discardKeepsTablesWhenUncertain := false } sd.2,
+       C04.openError { discardKeepsTablesWhenUncertain := false } (crashWith {} sd.2))) =
+    some (some .missingFiles, some .missingFiles) := by decide
+
+/-- … repaired (commit 5cf4e90): the manifest is uncertain, the table stays; `Open` succeeds and the transaction that
+    was reported as failed is there as a whole -/
+example : ((run {} init trCommitSyncFailsThenDiscard).map fun sd =>
+    (C04.openError {} sd.2, C04.openError {} (crashWith {} sd.2), sd.2.tables.map (·.1))) =
+    some (none, none, [3]) := by decide
+example : C04.readsK {} trCommitSyncFailsThenDiscard = some (some [118]) := by decide
+
+/-- a synced write, its flush with the commit rotating the manifest; `SetMeta` reports an error (`o`) -/
+def flushRotatingSetMeta (getMetaFails : Bool) (o : Outcome) : List Act :=
+  [.wAppend C04.putKV true .ok, .wSync .ok, .wApply, .wPublish, .wAck, .rotate .ok, .flushStart,
+   .job false .ok, .job false .ok, .job false .ok,                      -- the table
+   .job true .ok, .job false .ok, .job false .ok,                       -- newManifest: Create, the record, Sync
+   .job getMetaFails o]                                                 -- SetMeta
+
+/-- **D26 (the code as found, `cleanupChecksCurrent = false`).**  `SetMeta` fails after it took effect, the cleanup of
+    `newManifest` removes the manifest `CURRENT` names: every later `Open` fails. -/
+theorem d26_setmeta_effect_then_cleanup_loses_current :
+    ((run { cleanupChecksCurrent := false } init (flushRotatingSetMeta false .failEffect)).map fun sd =>
+      (C04.openError { cleanupChecksCurrent := false } sd.2, sd.2.current, sd.2.manifests.map (·.1))) =
+    some (some .corrupted, some 5, [1]) := by decide
+
+/-- … repaired (commit 8a67fea): `GetMeta` names the new manifest, it is kept; the commit fails all the same, is
+    retried, and writes yet another manifest -/
+example : ((run {} init (flushRotatingSetMeta false .failEffect)).map fun sd =>
+    (C04.openError {} sd.2, sd.2.current, sd.2.manifests.map (·.1), sd.1.manifestFailed, sd.1.manifestFd)) =
+    some (none, some 5, [1, 5], true, some 1) := by decide
+example : C04.losesAcked {} {} (flushRotatingSetMeta false .failEffect) = some false := by decide
+example : C04.losesAcked {} {} (flushRotatingSetMeta false .failEffect ++
+    [.job false .ok, .job false .ok, .job false .ok, .job false .ok, .job false .ok]) = some false := by decide
+
+/-- **D26, second part (commit 8a67fea alone, `cleanupKeepsWhenGetMetaFails = false`): two storage faults in a row.**
+    `SetMeta` reports an error after it took effect *and* the `GetMeta` of the cleanup fails too: `gerr != nil`, the
+    cleanup falls through to `Remove(fd)` and removes the manifest `CURRENT` names. -/
+theorem setmeta_and_getmeta_fail_lose_current :
+    ((run { cleanupKeepsWhenGetMetaFails := false } init (flushRotatingSetMeta true .failEffect)).map fun sd =>
+      (C04.openError { cleanupKeepsWhenGetMetaFails := false } sd.2, sd.2.current, sd.2.manifests.map (·.1))) =
+    some (some .corrupted, some 5, [1]) := by decide
+
+/-- … repaired (commit 98bd5c2, `metaTried`): the manifest is kept when `GetMeta` fails (`gerr != nil || cur == fd`) —
+    also when `SetMeta` had no effect: the file stays behind, not current, `manifestFailed` is set -/
+example : ((run {} init (flushRotatingSetMeta true .failEffect)).map fun sd =>
+    (C04.openError {} sd.2, sd.2.current, sd.2.manifests.map (·.1), sd.1.manifestFailed)) =
+    some (none, some 5, [1, 5], true) := by decide
+example : ((run {} init (flushRotatingSetMeta true .failNoEffect)).map fun sd =>
+    (C04.openError {} sd.2, sd.2.current, sd.2.manifests.map (·.1), sd.1.manifestFailed)) =
+    some (none, some 1, [1, 5], true) := by decide
+example : C04.losesAcked {} {} (flushRotatingSetMeta true .failNoEffect ++
+    [.job false .ok, .job false .ok, .job false .ok, .job false .ok, .job false .ok]) = some false := by decide
+
+/-- the model follows the code in the tree for the two repairs (`tools/extract`): `Transaction.discard` returns
+    before its removal loop when `tr.db.s.manifestUncertain()`; the error branch of `newManifest`'s cleanup, once
+    `SetMeta(fd)` has been attempted (`metaTried`), asks `s.stor.GetMeta()` and keeps the file when
+    `gerr != nil || cur == fd`, before `s.stor.Remove(fd)` -/
+theorem code_discard_guard_and_cleanup_check :
+    C04.codeCfg.discardKeepsTablesWhenUncertain = true ∧ Gen.discardGuardsUncertainManifest = true ∧
+    C04.codeCfg.cleanupChecksCurrent = true ∧ C04.codeCfg.cleanupKeepsWhenGetMetaFails = true ∧
+    Gen.newManifestCleanupChecksCurrent = true ∧ C04.codeCfg = {} := by
+  decide
+
+/-- `fault_safe_writer` from an empty storage: the machine with the creation of the DB in front
+    (`Dur.bigStep`), every storage operation of the creation may fail as well (`SetMeta` after it took effect
+    excepted, as `noD26`) and the machine may crash inside it. -/
+theorem fault_safe_writer_created {cfg : Cfg} (hg : cfg.Good) (hcs : cfg.consumeSeqOnJournalError = true)
+    (hc : cfg.manifestsAloneAreNoDB = true) {xs : List BAct} {b : Big}
+    (hal : bigAllowed cfg Act.faultsOK CPc.noD26 init0 xs = true) (hr : bigRun cfg init0 xs = some b)
+    {d' : Disk} (hi : IsCrashImage b.disk d') {c : UCmp} (hl : LawfulUCmp c) (hw : ∀ g ∈ issuedGrps b.st, g.wf) :
+    ∃ r, recoverR cfg d' = .ok r ∧ ∃ sel, C04.Consistent c b.st r sel := by
+  obtain ⟨ch, rfl⟩ := hi
+  have hinv : BigInv cfg b := by
+    refine bigInv_run (fun s d a s' d' h hp hs => inv_step_faults hg h (Or.inr hcs) hp hs) ?_ (bigInv_init0 cfg) xs hal hr
+    intro pc o gm hq hp ho
+    subst hp ho
+    simp [CPc.noD26] at hq
+  obtain ⟨r, hrec, hgood⟩ := hinv.open_ok hg.noTrace hc ch
+  exact ⟨r, hrec, C04.consistent_of_good hl hw hgood⟩
+
+/-- every storage operation of the creation fails once (with effect where it can), then the DB is created and used -/
+def faultyCreation : List BAct :=
+  [.c .failEffect false, .c .ok false, .c .failEffect false, .c .ok false, .c .ok false, .c .failNoEffect false,
+   .c .ok false, .c .ok false, .c .ok false, .c .failNoEffect false, .c .ok false, .c .ok false, .c .ok false, .c .ok false] ++
+  (([Act.recStep] ++ List.replicate 8 (Act.job false .ok) ++
+    [Act.wAppend C04.putKV true .ok, Act.wSync .ok, Act.wApply, Act.wPublish, Act.wAck] : List Act).map BAct.a)
+
+example : bigAllowed {} Act.faultsOK CPc.noD26 init0 faultyCreation = true := by decide
+example : (bigRun {} init0 faultyCreation).map (fun b => (C04.openError {} (crashWith {} b.disk), b.st.phase)) =
+    some (none, .running) := by decide
+
+/-- **The statement without `noD10`/`noD26`** (not proved, see the header): crash consistency for every run of the
+    machine with the creation in front in which any storage operation may fail in any way. -/
 def fault_safe_full : Prop :=
-  ∀ (cfg : Cfg), cfg.Good → cfg.consumeSeqOnJournalError = true → ∀ (s : St) (d : Disk), Reachable cfg (s, d) →
-    (∀ ch, ∃ r, recoverR cfg (crashWith ch d) = .ok r ∧
-      (∀ g, acked s g → g.sync = true → g ∈ r.grps) ∧ (∀ g ∈ r.grps, g ∈ issuedGrps s)) ∧
-    (s.phase = .running → ∀ g, acked s g → g ∈ s.mem ∨ (∃ fz, s.frozen = some fz ∧ g ∈ fz) ∨
-      ∃ t ∈ s.live, g ∈ tableGrpsOf d t)
+  ∀ (cfg : Cfg), cfg.Good → cfg.consumeSeqOnJournalError = true → cfg.manifestsAloneAreNoDB = true →
+    cfg.discardKeepsTablesWhenUncertain = true → cfg.cleanupChecksCurrent = true →
+    cfg.cleanupKeepsWhenGetMetaFails = true →
+    ∀ (xs : List BAct) (b : Big), bigRun cfg init0 xs = some b →
+      ∀ d', IsCrashImage b.disk d' → ∀ (c : UCmp), LawfulUCmp c → (∀ g ∈ issuedGrps b.st, g.wf) →
+        ∃ r, recoverR cfg d' = .ok r ∧ ∃ sel, C04.Consistent c b.st r sel
 
 /-- The property theorems of this file (for the audit). -/
 def theorems : List String :=
   ["GoLevel.C08.fault_safe_partial", "GoLevel.C08.fault_safe_jobs", "GoLevel.C08.fault_safe_writer",
-   "GoLevel.C08.d4_loses_acked_write"]
+   "GoLevel.C08.fault_safe_writer_created", "GoLevel.C08.d4_loses_acked_write",
+   "GoLevel.C08.d10_discard_after_failed_commit_loses_table",
+   "GoLevel.C08.d26_setmeta_effect_then_cleanup_loses_current", "GoLevel.C08.setmeta_and_getmeta_fail_lose_current",
+   "GoLevel.C08.code_discard_guard_and_cleanup_check"]
 
 end GoLevel.C08
